@@ -642,11 +642,15 @@ func (p *parser) summarizeOperator(pipe, keyword Token) (*SummarizeOperator, err
 		By:      nullSpan(),
 	}
 
+	// danglingComma is the comma after the last column, if no column followed it.
+	// It is only permitted directly before 'by'.
+	var danglingComma *Token
 	for {
 		col, err := p.summarizeColumn()
 		if isNotFound(err) {
 			break
 		}
+		danglingComma = nil
 		if col != nil {
 			op.Cols = append(op.Cols, col)
 		}
@@ -662,6 +666,7 @@ func (p *parser) summarizeOperator(pipe, keyword Token) (*SummarizeOperator, err
 			p.prev()
 			break
 		}
+		danglingComma = &sep
 	}
 
 	sep, ok := p.next()
@@ -673,6 +678,13 @@ func (p *parser) summarizeOperator(pipe, keyword Token) (*SummarizeOperator, err
 				err:    fmt.Errorf("expected expression or 'by', got EOF"),
 			}
 		}
+		if danglingComma != nil {
+			return op, &parseError{
+				source: p.source,
+				span:   danglingComma.Span,
+				err:    fmt.Errorf("expected expression or 'by' after ',', got EOF"),
+			}
+		}
 		return op, nil
 	}
 	if sep.Kind != TokenBy {
@@ -682,6 +694,13 @@ func (p *parser) summarizeOperator(pipe, keyword Token) (*SummarizeOperator, err
 				source: p.source,
 				span:   sep.Span,
 				err:    fmt.Errorf("expected expression or 'by', got %s", formatToken(p.source, sep)),
+			}
+		}
+		if danglingComma != nil {
+			return op, &parseError{
+				source: p.source,
+				span:   danglingComma.Span,
+				err:    fmt.Errorf("expected expression or 'by' after ',', got %s", formatToken(p.source, sep)),
 			}
 		}
 		return op, nil
